@@ -986,6 +986,7 @@ def run_cache_states(ctx):
     import copy
 
     fx = fixtures()
+    creq, cchk = [], []
     for it in range(ctx.pick(60, 600)):
         a = copy.deepcopy(ctx.rng.choice(fx["assems"]))
         ib = ctx.rng.randrange(len(a))
@@ -1021,6 +1022,12 @@ def run_cache_states(ctx):
         try:
             m0 = {n: float(sum(c.getMass(n) for c in b)) for n in nucs}
             nd0 = {n: float(b.getNumberDensity(n)) for n in nucs}
+            # one listed nuclide component by component, for the model (areas, densities, and which volumes the harness
+            # leaves cached at the old height)
+            pick = ctx.rng.choice([n for n in adjust if n in shared] or list(adjust))
+            held = [pick in c.getNuclides() for c in b]
+            areas = [float(c.getArea()) for c in b]
+            cnd = [float(c.getNumberDensity(pick)) if hd else None for c, hd in zip(b, held)]
             trip = [a, copy.deepcopy(a), copy.deepcopy(a)]
             outs = []
             for aa, st in zip(trip, (state, "all-cached", "none-cached")):
@@ -1029,12 +1036,17 @@ def run_cache_states(ctx):
                     set_cache_state(ctx.rng, bb, st)
                     bb.setHeight(h1, conserveMass=True, adjustList=list(adjust))
                 outs.append(({n: float(sum(c.getMass(n) for c in bb)) for n in nucs},
-                             {n: float(bb.getNumberDensity(n)) for n in nucs}, float(bb.getHeight())))
+                             {n: float(bb.getNumberDensity(n)) for n in nucs}, float(bb.getHeight()),
+                             [float(c.getNumberDensity(pick)) if hd else None for c, hd in zip(bb, held)]))
         except Exception as e:  # noqa
             ctx.fail("setheight-raises-from-cache-state", "a mass-conserving height change of a valid block succeeds whatever its "
                      "cache state", case, observed=repr(e)[:300])
             continue
-        m1, nd1, hh = outs[0]
+        m1, nd1, hh, cnd1 = outs[0]
+        if nd0[pick] != 0.0 and all(x > 0 for x in areas):
+            caches = [(ar * h0 if ctx.rng.random() < 0.5 else None) for ar in areas]
+            creq.append(f"setheightc {rat(h0)} {rat(h1)} {ratlist(areas)} {optlist(cnd)} {optlist(caches)}")
+            cchk.append((dict(case, nuclide=pick), cnd1))
         for n in nucs:
             if n in adjust:
                 if not (fclose(m1[n], m0[n], 1e-9) or abs(m1[n] - m0[n]) < 1e-30):
@@ -1047,7 +1059,7 @@ def run_cache_states(ctx):
             elif not (fclose(nd1[n], nd0[n], 1e-12) or (nd0[n] == 0.0 and nd1[n] == 0.0)):
                 ctx.fail("setheight-unlisted-nuclide-unchanged", "the density of every nuclide NOT in adjustList is "
                          "unchanged (not wiped, not scaled)", dict(case, nuclide=n), observed=nd1[n], expected=nd0[n])
-        for (mx, ndx, _h), other in zip(outs[1:], ("all-cached", "none-cached")):
+        for (mx, ndx, _h, _c), other in zip(outs[1:], ("all-cached", "none-cached")):
             bad = [n for n in nucs if not (fclose(ndx[n], nd1[n], 1e-12) or abs(ndx[n] - nd1[n]) < 1e-40)]
             if bad:
                 ctx.fail("setheight-independent-of-cache-state", "the result of a height change does not depend on which "
@@ -1095,6 +1107,18 @@ def run_cache_states(ctx):
                         break
         ctx.count("setBlockMesh from per-block cache states")
         ctx.case(("cache-blockmesh", a.getType(), str(mode), tuple(new_tops), tuple(states)), nontrivial=True)
+    model = lean_run("Mesh", creq)
+    for (case, impl), line, rq in zip(cchk, model, creq):
+        okk = line not in ("reject", "bad-op")
+        if okk:
+            m = common.parse_list(line)
+            okk = len(m) == len(impl) and all((x == "_") == (v is None) and (v is None or relclose(v, x, 1e-9) or abs(v) < 1e-40)
+                                              for x, v in zip(m, impl))
+        if not okk:
+            ctx.disagree("Model/Mesh.lean setHeightOne (component by component, with caches) vs Block.setHeight",
+                         dict(case, request=rq[:300]), line[:300], str(impl)[:300])
+    ctx.evaluations += len(creq)
+    ctx.count("component-level setHeight model requests", len(creq))
 
 
 def run_block_mesh(ctx):
